@@ -15,6 +15,7 @@ import (
 	"berty.tech/go-orbit-db/iface"
 	"berty.tech/weshnet/v2/internal/zzverif/vrep"
 	"berty.tech/weshnet/v2/pkg/errcode"
+	"berty.tech/weshnet/v2/pkg/protocoltypes"
 )
 
 type c13Case struct {
@@ -304,6 +305,10 @@ func TestVerifC13(t *testing.T) {
 	}
 	wg.Wait()
 	rep.Sample(map[string]interface{}{"log_sizes": fmt.Sprintf("0..%d", maxN), "arrivals": c13Arrivals, "queries_per_log": "every (since, until) over entries + nil + unknown id, x reverse"})
+	c13RPC(rep, t, 3)
+	if vrep.Thorough() {
+		c13RPC(rep, t, 6)
+	}
 	// parameter consistency rules of the list RPCs: all 2^5 combinations
 	for mask := 0; mask < 32; mask++ {
 		var sinceID, untilID []byte
@@ -328,3 +333,142 @@ func TestVerifC13(t *testing.T) {
 }
 
 var _ iface.Store
+
+// c13RPC: GroupMetadataList / GroupMessageList of a real service, every terminating (since, until|until_now, reverse)
+// combination against the log order of the account group's stores.
+func c13RPC(rep *vrep.Report, t *testing.T, n int) {
+	ctx := context.Background()
+	tp, cleanup := NewTestingProtocol(ctx, t, nil, nil)
+	defer cleanup()
+	svc := tp.Service.(*service)
+	cfg, err := tp.Service.ServiceGetConfiguration(ctx, &protocoltypes.ServiceGetConfiguration_Request{})
+	vmust(err)
+	for i := 0; i < n; i++ {
+		if i%2 == 0 {
+			_, err = tp.Service.ContactRequestResetReference(ctx, &protocoltypes.ContactRequestResetReference_Request{})
+		} else {
+			_, err = tp.Service.ContactRequestEnable(ctx, &protocoltypes.ContactRequestEnable_Request{})
+		}
+		vmust(err)
+		_, err = tp.Service.AppMessageSend(ctx, &protocoltypes.AppMessageSend_Request{GroupPk: cfg.AccountGroupPk, Payload: []byte(fmt.Sprintf("m%d", i))})
+		vmust(err)
+	}
+	gc := svc.getAccountGroup()
+	metaOrder, msgOrder := logHashes(gc.MetadataStore()), logHashes(gc.MessageStore())
+	unknown := cidOfBytes([]byte("unknown-entry")).Bytes()
+	run := func(store string, order []cid.Cid, call func(since, until []byte, untilNow, reverse bool, expect int) ([]string, error)) {
+		idOf := func(i int) []byte {
+			switch i {
+			case -1:
+				return nil
+			case -2:
+				return unknown
+			}
+			return order[i].Bytes()
+		}
+		nn := len(order)
+		for s := -2; s < nn; s++ {
+			for u := -2; u < nn; u++ {
+				for _, rev := range []bool{false, true} {
+					untilNow := u == -1 // no upper bound: ask for "until now" so that the stream ends
+					lo, hi := 0, nn-1
+					if s >= 0 {
+						lo = s
+					}
+					if u >= 0 {
+						hi = u
+					}
+					expect := hi - lo + 1
+					if expect < 0 || s == -2 || u == -2 {
+						expect = 0
+					}
+					got, err := call(idOf(s), idOf(u), untilNow, rev, expect)
+					wantErr := s == -2 || u == -2 || (s >= 0 && u >= 0 && lo > hi)
+					c := c13Case{Store: store + "-rpc", N: nn, Arrival: "service", Since: s, Until: u, Reverse: rev}
+					rep.Eval(fmt.Sprintf("rpc/%s/since=%s/until=%s/reverse=%v/err=%v", store, kindOf(s), kindOf(u), rev, err != nil))
+					rep.AddTransitions(1)
+					if wantErr {
+						if err == nil {
+							rep.Violation("C13/rpc-invalid-range-accepted", fmt.Sprintf("%s list RPC, %d entries: since=%d until=%d reverse=%v returned %d events", store, nn, s, u, rev, len(got)), c)
+						}
+						continue
+					}
+					if err != nil {
+						rep.Violation("C13/rpc-valid-range-refused", fmt.Sprintf("%s list RPC, %d entries: since=%d until=%d reverse=%v: %v", store, nn, s, u, rev, err), c)
+						continue
+					}
+					var want []string
+					for i := lo; i <= hi && i < nn; i++ {
+						want = append(want, order[i].String())
+					}
+					if rev {
+						for i, j := 0, len(want)-1; i < j; i, j = i+1, j-1 {
+							want[i], want[j] = want[j], want[i]
+						}
+					}
+					if strings.Join(got, ",") != strings.Join(want, ",") {
+						rep.Violation("C13/rpc-wrong-listing", fmt.Sprintf("%s list RPC, %d entries: since=%d until=%d reverse=%v returned entries %v, expected %v", store, nn, s, u, rev, indexList(got, order), indexList(want, order)), c)
+					}
+				}
+			}
+		}
+	}
+	run("metadata", metaOrder, func(since, until []byte, untilNow, reverse bool, expect int) ([]string, error) {
+		cctx, cancel := context.WithTimeout(ctx, 5*time.Second)
+		defer cancel()
+		st := &recStream[protocoltypes.GroupMetadataEvent]{ctx: cctx}
+		// with an until identifier the handler keeps the stream open after the last event (only the caller's
+		// context ends it): end it shortly after the expected number of events has arrived, so that an extra
+		// event would still be seen
+		endSoon := func() { go func() { time.Sleep(40 * time.Millisecond); cancel() }() }
+		if !untilNow {
+			if expect == 0 {
+				endSoon()
+			} else {
+				st.onSend = func(n int) {
+					if n == expect {
+						endSoon()
+					}
+				}
+			}
+		}
+		err := svc.GroupMetadataList(&protocoltypes.GroupMetadataList_Request{GroupPk: cfg.AccountGroupPk, SinceId: since, UntilId: until, UntilNow: untilNow, ReverseOrder: reverse}, st)
+		var out []string
+		for _, m := range st.msgs {
+			_, c, e := cid.CidFromBytes(m.EventContext.Id)
+			vmust(e)
+			out = append(out, c.String())
+		}
+		return out, err
+	})
+	run("message", msgOrder, func(since, until []byte, untilNow, reverse bool, expect int) ([]string, error) {
+		cctx, cancel := context.WithTimeout(ctx, 5*time.Second)
+		defer cancel()
+		st := &recStream[protocoltypes.GroupMessageEvent]{ctx: cctx}
+		// with an until identifier the handler keeps the stream open after the last event (only the caller's
+		// context ends it): end it shortly after the expected number of events has arrived, so that an extra
+		// event would still be seen
+		endSoon := func() { go func() { time.Sleep(40 * time.Millisecond); cancel() }() }
+		if !untilNow {
+			if expect == 0 {
+				endSoon()
+			} else {
+				st.onSend = func(n int) {
+					if n == expect {
+						endSoon()
+					}
+				}
+			}
+		}
+		err := svc.GroupMessageList(&protocoltypes.GroupMessageList_Request{GroupPk: cfg.AccountGroupPk, SinceId: since, UntilId: until, UntilNow: untilNow, ReverseOrder: reverse}, st)
+		var out []string
+		for _, m := range st.msgs {
+			_, c, e := cid.CidFromBytes(m.EventContext.Id)
+			vmust(e)
+			out = append(out, c.String())
+		}
+		return out, err
+	})
+	rep.AddStates(1)
+	rep.Sample(map[string]interface{}{"part": "list RPCs", "metadata_entries": len(metaOrder), "message_entries": len(msgOrder)})
+}
